@@ -182,6 +182,7 @@ func (w *worker[T, JobType]) configs() configs {
 }
 
 func (w *worker[T, JobType]) releaseWaiters(processing uint32) {
+	vhook("rel.enter", processing)
 	// Early return if there's still processing happening
 	if processing != 0 {
 		return
@@ -192,6 +193,7 @@ func (w *worker[T, JobType]) releaseWaiters(processing uint32) {
 		// Broadcast to all waiters to signal they can continue.
 		// The lock keeps the broadcast from falling between a waiter's condition check
 		// and its Wait, where it would be lost and the waiter would sleep forever.
+		vhook("rel.bcast")
 		w.mx.Lock()
 		w.waiters.Broadcast()
 		w.mx.Unlock()
@@ -226,8 +228,11 @@ func (w *worker[T, JobType]) WaitUntilFinished() {
 	w.mx.Lock()
 	defer w.mx.Unlock()
 
+	vhook("wuf.locked")
 	for condition() {
+		vhook("wuf.wait")
 		w.waiters.Wait()
+		vhook("wuf.woken")
 	}
 }
 
@@ -247,11 +252,13 @@ func (w *worker[T, JobType]) dispatchNextJob(mayDispatch func() bool) error {
 	// visible either in the queue length or in curProcessing (WaitUntilFinished reads both).
 	w.curProcessing.Add(1)
 	dispatched := false
+	vhook("disp.reserve")
 
 	defer func() {
 		// nothing was handed to a pool worker: give the slot back and let the waiters re-evaluate
 		if !dispatched {
 			w.releaseWaiters(w.curProcessing.Add(^uint32(0)))
+			vhook("disp.release")
 		}
 	}()
 
@@ -281,6 +288,7 @@ func (w *worker[T, JobType]) dispatchNextJob(mayDispatch func() bool) error {
 		v, ok = q.Dequeue()
 	}
 
+	vhook("disp.deq", v, ok, ackId)
 	if !ok {
 		return ErrFailedToDequeue
 	}
@@ -309,10 +317,12 @@ func (w *worker[T, JobType]) dispatchNextJob(mayDispatch func() bool) error {
 
 	// a closed (cancelled) job is skipped; otherwise it is Processing from here on and can't be closed
 	if !j.startProcessing() {
+		vhook("disp.proc", j, false)
 		return nil
 	}
 
 	j.setAckId(ackId)
+	vhook("disp.proc", j, true)
 
 	// then job will be process by the processSingleJob function inside spawnWorker
 	dispatched = true
@@ -331,11 +341,13 @@ func (w *worker[T, JobType]) freePoolNode(node *linkedlist.Node[pool.Node[JobTyp
 
 	// If queue length is high or we're under our idle worker target, keep this worker
 	if w.queues.Len() >= w.NumConcurrency() || enabledIdleWorkersRemover || w.pool.Len() < w.numMinIdleWorkers() {
+		vhook("free.push", node)
 		w.pool.PushNode(node)
 		return
 	}
 
 	// Otherwise stop the worker to reduce idle workers
+	vhook("free.stop", node)
 	node.Value.Stop()
 	w.pool.Cache.Put(node)
 }
@@ -345,27 +357,36 @@ func (w *worker[T, JobType]) freePoolNode(node *linkedlist.Node[pool.Node[JobTyp
 func (w *worker[T, JobType]) sendToNextChannel(j JobType) {
 	// pop the last free node
 	if node := w.pool.PopBack(); node != nil {
+		vhook("disp.node", node, false)
 		node.Value.Send(j)
+		vhook("disp.sent", node)
 		return
 	}
 
 	// if the pool is empty, create a new node and spawn a worker
 	w.initPoolNode().Value.Send(j)
+	vhook("disp.sent", nil)
 }
 
 func (w *worker[T, JobType]) initPoolNode() *linkedlist.Node[pool.Node[JobType]] {
 	node := w.pool.Cache.Get().(*linkedlist.Node[pool.Node[JobType]])
+	vhook("node.init", node)
 
 	// Start a worker goroutine to process jobs from this nodes channel
 	go node.Value.Serve(func(j JobType) {
+		vhook("serve.recv", node, j)
 		w.workerFunc(j)
 
 		j.changeStatus(finished)
+		vhook("serve.fin", j)
 		if err := j.Close(); err != nil {
 			w.sendError(err)
 		}
+		vhook("serve.closed", j)
 		w.freePoolNode(node)
+		vhook("serve.freed", node)
 		w.releaseWaiters(w.curProcessing.Add(^uint32(0)))
+		vhook("serve.rel")
 		w.metrics.incCompleted()
 		w.notifyToPullNextJobs()
 	})
@@ -378,7 +399,9 @@ func (w *worker[T, JobType]) notifyToPullNextJobs() {
 	w.mx.RLock()
 	select {
 	case w.eventLoopSignal <- struct{}{}:
+		vhook("notify.sent")
 	default:
+		vhook("notify.dropped")
 		// This default case means the eventLoopSignal buffer is full or
 		// no one is listening. This is generally fine as it's a non-blocking send.
 	}
@@ -415,6 +438,7 @@ func (w *worker[T, JobType]) goRemoveIdleWorkers() {
 				return
 			case <-ticker.C:
 			}
+			vhook("reap.tick")
 
 			// Calculate the target number of idle workers
 			targetIdleWorkers := w.numMinIdleWorkers()
@@ -425,14 +449,17 @@ func (w *worker[T, JobType]) goRemoveIdleWorkers() {
 			}
 
 			nodes := w.pool.NodeSlice()
+			vhook("reap.snap", len(nodes))
 			// If we have more nodes than our target, close the excess ones
 			for _, node := range nodes[targetIdleWorkers:] {
 				if node.Value.GetLastUsed().Add(interval).Before(time.Now()) {
 					// the dispatcher may have popped the node since the snapshot was taken (Remove then
 					// reports false): only the goroutine that unlinks a node owns it
 					if w.pool.Remove(node) {
+						vhook("reap.removed", node)
 						node.Value.Stop()
 						w.pool.Cache.Put(node)
+						vhook("reap.stopped", node)
 					}
 				}
 			}
@@ -448,6 +475,7 @@ func (w *worker[T, JobType]) goListenToContext() {
 	// Capture context locally to avoid race with Restart() modifying w.ctx
 	go func(c context.Context) {
 		<-c.Done()
+		vhook("ctx.fired")
 
 		// Restart cancels the context of the previous run by itself and installs a new one:
 		// only the listener of the worker's current context stops the worker
@@ -472,8 +500,11 @@ func (w *worker[T, JobType]) goEventLoop() {
 			return w.IsRunning() && w.isEventLoopSignal(signal)
 		}
 
+		vhook("loop.start")
 		for range signal {
+			vhook("loop.wake")
 			for mayDispatch() && w.curProcessing.Load() < w.concurrency.Load() && w.queues.Len() > 0 {
+				vhook("loop.pass")
 				if err := w.dispatchNextJob(mayDispatch); err != nil {
 					w.sendError(err)
 				}
@@ -482,7 +513,9 @@ func (w *worker[T, JobType]) goEventLoop() {
 			// Nothing more to dispatch. If the queues were emptied without any job completing
 			// (purged), no completion will wake a waiter that saw them non-empty: do it here.
 			w.releaseWaiters(w.curProcessing.Load())
+			vhook("loop.idle")
 		}
+		vhook("loop.exit")
 	}(w.eventLoopSignal)
 }
 
@@ -528,6 +561,7 @@ func (w *worker[T, JobType]) stopAndRemoveAllWorkers() {
 	for _, node := range w.pool.NodeSlice() {
 		// a concurrent Stop (e.g. the context listener) may work on the same snapshot
 		if w.pool.Remove(node) {
+			vhook("stopall.removed", node)
 			node.Value.Stop()
 			w.pool.Cache.Put(node)
 		}
@@ -540,6 +574,7 @@ func (w *worker[T, JobType]) start() error {
 	if w.status.Load() != initiated {
 		return ErrRunningWorker
 	}
+	vhook("start.enter")
 
 	defer w.notifyToPullNextJobs()
 	defer w.status.Store(running)
@@ -550,6 +585,7 @@ func (w *worker[T, JobType]) start() error {
 
 	// init the first worker by default
 	w.pool.PushNode(w.initPoolNode())
+	vhook("start.node")
 
 	return nil
 }
@@ -567,6 +603,7 @@ func (w *worker[T, JobType]) TunePool(concurrency int) error {
 	}
 
 	w.concurrency.Store(safeConcurrency)
+	vhook("tune.stored", oldConcurrency, safeConcurrency)
 
 	// if new concurrency is greater than the old concurrency, then notify to pull next jobs
 	// cause it will be extended by the event loop when it needs
@@ -586,6 +623,7 @@ func (w *worker[T, JobType]) TunePool(concurrency int) error {
 	// if current concurrency is greater than the safe concurrency, shrink the pool size
 	for shrinkPoolSize > 0 && w.pool.Len() != minIdleWorkers {
 		if node := w.pool.PopBack(); node != nil {
+			vhook("tune.popped", node)
 			w.pool.Remove(node)
 			node.Value.Stop()
 			w.pool.Cache.Put(node)
@@ -609,6 +647,7 @@ func (w *worker[T, JobType]) NumIdleWorkers() int {
 func (w *worker[T, JobType]) Pause() error {
 	switch s := w.status.Load(); s {
 	case running:
+		vhook("pause.load")
 		w.status.Store(paused)
 	case paused, stopped:
 		return nil
@@ -630,6 +669,7 @@ func (w *worker[T, JobType]) Stop() error {
 	default:
 		return ErrNotRunningWorker
 	}
+	vhook("stop.waited")
 
 	// Restart replaces ctx and cancel under the mutex
 	w.mx.RLock()
@@ -644,7 +684,9 @@ func (w *worker[T, JobType]) Stop() error {
 	w.stopTickers()
 	w.closeChannels()
 
+	vhook("stop.chans")
 	w.stopAndRemoveAllWorkers()
+	vhook("stop.nodes")
 
 	return nil
 }
@@ -673,8 +715,10 @@ func (w *worker[T, JobType]) Restart() error {
 	}
 
 	// start() below creates a new idle-worker remover
+	vhook("restart.waited")
 	w.stopTickers()
 	w.closeChannels()
+	vhook("restart.closed")
 
 	w.mx.Lock()
 	w.eventLoopSignal = make(chan struct{}, eventLoopSignalCap)
@@ -685,9 +729,11 @@ func (w *worker[T, JobType]) Restart() error {
 		w.ctx, w.cancel = context.WithCancel(w.Configs.ctx)
 	}
 	w.mx.Unlock()
+	vhook("restart.newchans")
 
 	// Reset status to initiated to allow start() to proceed
 	w.status.Store(initiated)
+	vhook("restart.reset")
 
 	if err := w.start(); err != nil {
 		return err
@@ -740,7 +786,9 @@ func (w *worker[T, JobType]) Resume() error {
 		return ErrRunningWorker
 	}
 
+	vhook("resume.check")
 	w.status.Store(running)
+	vhook("resume.stored")
 	w.notifyToPullNextJobs()
 
 	return nil
